@@ -313,6 +313,36 @@ func c19Seq(w *fw.W, idx int, r *fw.Rand) {
 	if idx%4000 == 0 {
 		w.Sample(map[string]any{"lang": lang, "input": trunc(in, 120), "message": trunc(msg, 300)})
 	}
+	if r.P(1, 4) && len(in) < 2000 {
+		// the same rejected text as the source of a value that is compiled at its first use (a
+		// computed value made by the host, a function restored without code): the message comes
+		// from a sub-VM and is still written in the language of the VM that evaluates it
+		for _, form := range []string{"computed", "function"} {
+			vm := ds.NewVM()
+			vm.Config.ParseErrorLanguage = lang
+			vm.Config.ParseExprLimit = 10000000
+			vm.Config.OpCountLimit = 30000
+			src := "lzv"
+			if form == "computed" {
+				vm.Attrs.Store("lzv", ds.NewComputedVal(in))
+			} else {
+				vm.Attrs.Store("lzf", ds.NewFunctionValRaw(&ds.FunctionData{Expr: in, Name: "lzf"}))
+				src = "lzf()"
+			}
+			var err error
+			if pv, _ := fw.Guard(func() { err = vm.Run(src) }); pv != nil || err == nil {
+				continue
+			}
+			m := err.Error()
+			if !strings.Contains(m, "语法错误") && !strings.Contains(m, "Syntax Error") {
+				continue
+			}
+			w.Count("lazy_messages_checked", 1)
+			if cls, det := checkSyntaxMessage(in, lang, m); strings.HasPrefix(cls, "language-") {
+				w.Violate(idx, "syntax-error", "syntax-error|lazy-"+form+"|"+cls, desc, "as the source of a lazily compiled "+form+": "+det+"\nmessage:\n"+m, nil)
+			}
+		}
+	}
 }
 
 // concurrent part: every goroutine owns a VM with its own language; messages must equal
@@ -411,7 +441,7 @@ func init() {
 		Floors: func(tier string) map[string]int64 {
 			return map[string]int64{"messages_checked": 15000, "lang_0": 3000, "lang_1": 3000, "lang_2": 3000, "multiline_inputs": 3000, "concurrent_parses": 20000}
 		},
-		Rule:        "rejected inputs: generated programs / dice / corpus entries damaged by 22 operators (unclosed bracket/string/template, damage on line 1..6, CR/LF/CRLF, multi-byte and wide text before the error, tabs, lines of 55–300 bytes around the truncation width, empty and blank input, ^st prefixes, positions at a newline) × 3 languages; the message is parsed: offset within input, line/column = those of the offset, quoted line = that line (or a window of it marked by ...), caret under the column, header/position lines only in the configured language. Concurrent batches: 3–8 goroutines with own VM and language under the race detector with a yield point in Parse; every message must equal its isolated baseline. distinct = hash(language, input)",
+		Rule:        "rejected inputs: generated programs / dice / corpus entries damaged by 22 operators (unclosed bracket/string/template, damage on line 1..6, CR/LF/CRLF, multi-byte and wide text before the error, tabs, lines of 55–300 bytes around the truncation width, empty and blank input, ^st prefixes, positions at a newline) × 3 languages; the message is parsed: offset within input, line/column = those of the offset, quoted line = that line (or a window of it marked by ...), caret under the column, header/position lines only in the configured language. Concurrent batches: 3–8 goroutines with own VM and language under the race detector with a yield point in Parse; every message must equal its isolated baseline. A quarter of the rejected texts are also evaluated as the source of a lazily compiled computed value / function: the sub-VM's message must be in the evaluating VM's language. distinct = hash(language, input)",
 		Assumptions: []string{"only messages produced by the friendly formatter (header 语法错误 / Syntax Error) are in scope; ad-hoc grammar messages have no position block"},
 	})
 }
